@@ -5,6 +5,12 @@ HERE = os.path.dirname(os.path.abspath(__file__))
 TB = ("Lean 4.33.0 kernel (axioms: propext, Classical.choice, Quot.sound only; audited per theorem); "
       "hand-written Lean model tied to the code by an in-process differential correspondence run (go build -overlay harness) on every run; ")
 CHECKS = {
+ "C15": dict(text="Lean theorems over the atomic-step model of the diagnostics pipeline (handlers, file worker, dispatcher with rate limiter, workspace worker): inv_step / inv_reachable and converges (for EVERY history and interleaving: whenever both queues are empty nothing published is stale), rate_limit_safe, drain_measure, merge_by_rule_disjoint (SetFileDiagnosticsForRules never clobbers a disjoint rule set); delete_leaves_stale_aggregate proves the defect of the code before its repair. Tie: the REAL LanguageServer (all workers, in-memory jsonrpc2) driven with generated event histories incl. bursts; published diagnostics at quiescence vs a fresh server on the final contents.",
+             note=TB + "protocol-level model ('stale' flags, atomic worker steps); verdict contents come from the kernel (C01/C02/C09); idleness detected by polling; finding C15-parse-error-keeps-stale-aggregates is open", ref="5/C15",
+             technique="Lean 4 proof (invariant by induction over events/worker steps) + end-to-end differential oracle on the real server"),
+ "C17": dict(text="PARTIAL. Proved (Lean): in the pipeline model no worker step is ever blocked and the queues drain (worker_never_blocked, idle_reached), and the didSave CRLF branch dereferences the config only when one is loaded (didSave_guard_sound; didSave_nil_deref_witness for the code as it was). NOT proved, explored: no panic / no unanswered request / idle again for random message sequences over all handled methods on opened, unknown, ignored, deleted URIs, broken documents, CRLF, config file appearing/disappearing, against the real server (thorough: -race).",
+             note=TB + "panic/race freedom of ~25 Go handlers over OPA ASTs is not a model we can state: exploration only (evidence.assumption_sampling)", ref="5/C17",
+             technique="Lean 4 proof of the queue/guard models + message-sequence exploration of the real server"),
  "C03": dict(text="PARTIAL. Proved (Lean, any number of workers, every interleaving): the wait/error protocol of lintWithRegoRules has no deadlock, a returned report contains every file's merge, an evaluation error is never dropped (select_no_lost_error, proto_complete, proto_no_deadlock, proto_progress; lost_error_witness for the code before its repair), tied by go/ast facts and the forced lost-error schedule. Pinned: the inventory of places in the bundle where OPA can raise a runtime conflict. NOT proved, only sampled (evidence.assumption_sampling): that no rule errors, panics or hangs on a parseable module (Env.Total) — all rules over repository, OPA-conformance and generated modules, alone and in batches.",
              note=TB + "Env.Total is a hypothesis about ~95 Rego rules x OPA's evaluator: sampling, not proof", ref="5/C03",
              technique="Lean 4 proof of the protocol model + fact extraction; corpus sampling for the Env-side hypothesis"),
@@ -58,6 +64,7 @@ CHECKS = {
              technique="Lean 4 proof over hand model + differential correspondence"),
 }
 NA = {
+ "C08": "about the concrete verdict of ~95 Rego rule programs on concrete documents and their re-layouts: the only executable model that expresses it is a formal semantics of Rego + OPA built-ins + each rule; with the rules behind the Env boundary the statement is vacuous, and running the examples through the linter is testing, which this task's technique may not substitute for a theorem (DESIGN section 6)",
 }
 ALL = ["C%02d" % i for i in range(1, 21)]
 PENDING = "not yet built in this round (framework in progress); see DESIGN.md"
